@@ -150,6 +150,10 @@ func (pass *DisjunctionInferMapping) buildDiscriminatorMapping(schema *ast.Schem
 			return nil, fmt.Errorf("could not resolve reference '%s'", branch.AsRef().String())
 		}
 
+		if !referredType.IsStruct() {
+			return nil, fmt.Errorf("disjunction branch '%s' is not a struct", branch.AsRef().String())
+		}
+
 		structType := referredType.AsStruct()
 
 		field, found := structType.FieldByName(def.Discriminator)
